@@ -211,6 +211,31 @@ def gen_shadow():
 
 # ("err:closed" was finding F37 - logging.Handler.handleError only tolerates OSError, a closed sys.stderr gives
 #  ValueError, which left every pyflyby logger call; repaired by fixes/C13-F37-emit-never-raises.diff)
+# AST transformers of the user's own, before and after pyflyby's ("+100" then pyflyby then "negate": 5 -> -105)
+USER_AST_ADD = {"op": "UserAst", "how": "add100"}
+USER_AST_NEG = {"op": "UserAst", "how": "negate"}
+RUN_FIVE = {"op": "cell", "act": "run", "text": "5", "names": [], "del": False}
+RUN_FIVE_IMPORT = {"op": "cell", "act": "run", "text": "zz_n = len(b64decode('aGk=')) + 5\ndel b64decode\nzz_n", "names": [["ok", "b64decode"]], "del": True}
+
+
+def gen_foreign():
+    """the user's own AST transformers in ip.ast_transformers, registered before and after pyflyby's: every cell must
+    go through all of them exactly as in the pyflyby-free shell - also the cell during which pyflyby hits an internal
+    error and withdraws from inside its own transformer"""
+    cases = []
+    k = 0
+    for pre, post in (([], [USER_AST_NEG]), ([USER_AST_ADD], [USER_AST_NEG]), ([USER_AST_ADD], []), ([], [USER_AST_NEG, USER_AST_ADD])):
+        for cell in (RUN_FIVE, RUN_FIVE_IMPORT):
+            site = ["SScopeStack", "SAnalysis", "SDbLoad", "STryImport"][k % 4] if cell is RUN_FIVE_IMPORT else ["SScopeStack", "SAnalysis"][k % 2]
+            cls = EXC_CLASSES[k % len(EXC_CLASSES)]
+            k += 1
+            cases.append(mk("foreign", pre + [{"op": "LoadExt"}] + post + [cell, with_faults(cell, [[site, cls]]), cell, RUN_IMPORT]))
+    cases.append(mk("foreign", [{"op": "LoadExt"}, USER_AST_NEG, with_faults(RUN_FIVE, [["SNamespaces", "KeyError"]]), RUN_FIVE]))
+    cases.append(mk("foreign", [USER_AST_ADD, {"op": "LoadExt"}, USER_AST_NEG, RUN_FIVE, {"op": "ReloadExt"}, with_faults(RUN_FIVE, [["SScopeStack", "OSError"]]),
+                                RUN_FIVE, {"op": "UnloadExt"}, RUN_FIVE], "DEBUG"))
+    return cases
+
+
 STDIO = ["out:flush", "out:closed", "out:none", "err:flush", "err:none", "err:closed"]
 
 
@@ -279,8 +304,15 @@ def gen_random(ctx, n):
             if o.get("faults") and r.random() < .3 and len(o.get("names", [])) <= 1:
                 o["faults"] = [f for f in o["faults"] if f[0] != "SNeedsImport"] + \
                               [["SNeedsImport", r.choice(EXC_CLASSES + ["SyntaxError"]), r.randint(1, 6)]]
-        cases.append(mk("random", ops, level, jedi=r.random() < .1, bad_exc=bad, i=i, bad_finder=r.random() < .15,
-                        stdio=(r.choice(["out:flush", "err:flush", "err:closed"]) if r.random() < .2 and level != "DEBUG" else None)))
+        stdio = r.choice(["out:flush", "err:flush", "err:closed"]) if r.random() < .2 and level != "DEBUG" else None
+        if stdio == "err:closed" and any(f[0] == "SNamespaces" for o in ops for f in o.get("faults", [])):
+            # [IPython] an exception leaving an AST transformer is reported with warnings.warn(), which raises ValueError
+            # on a closed sys.stderr before IPython unregisters the transformer (modelled: io_stderr_closed) - but only
+            # the first time: Python's warning registry suppresses the repeated warning, and then IPython does
+            # unregister it.  IPython's / the warnings module's own behaviour in a configuration outside the property
+            # (fault in the prelude): single occurrences are modelled, repeated ones are not generated.
+            stdio = "err:flush"
+        cases.append(mk("random", ops, level, jedi=r.random() < .1, bad_exc=bad, i=i, bad_finder=r.random() < .15, stdio=stdio))
     return cases
 
 
@@ -364,8 +396,9 @@ def oracle(case, impl, ref):
             if s["st"] != "DISABLED" or s["disablers"]:
                 bad.append(("withdraws", "step %d: errored but state %s with %d disablers" % (k, s["st"], len(s["disablers"]))))
             for f in ("slots", "eff", "ast", "cleanup"):
-                if s[f] != s0[f]:
-                    bad.append(("withdraws", "step %d: errored and withdrawn but %s is %r, initially %r" % (k, f, s[f], s0[f])))
+                got, want = (c14.without_user(s), c14.without_user(s0)) if f == "ast" else (s[f], s0[f])
+                if got != want:
+                    bad.append(("withdraws", "step %d: errored and withdrawn but %s is %r, initially %r" % (k, f, got, want)))
                     break
     return bad
 
@@ -470,7 +503,7 @@ def run(ctx):
         "the import database and the modules (one importable, one raising at import) are written by the harness",
     ]
     ctx.notes["trusted_base"] = ["IPython 9.17.1 as the environment of the hooks (modelled, not verified)"]
-    always = gen_core() + gen_episodes() + gen_awkward() + gen_natural() + gen_stmt() + gen_finder() + gen_shadow() + gen_stdio()
+    always = gen_core() + gen_episodes() + gen_awkward() + gen_natural() + gen_stmt() + gen_finder() + gen_shadow() + gen_stdio() + gen_foreign()
     matrix = gen_matrix() if ctx.quick else gen_matrix(("INFO", "DEBUG")) + gen_stmt_full()
     if ctx.quick:
         r = cm.rng(ctx.seed, "c13-matrix")
